@@ -29,6 +29,7 @@ def classify : List (Option Nat) → GtRes
         (if a + b ≤ 2 then .genotype (a + b) else .skipped .multiallelic)   -- `try_from_raw`
       else .skipped .multiallelic
     | _, _ => .skipped .missing
+  | [none] => .skipped .missing        -- a single missing allele: how a wholly missing genotype is spelled (`|.`, BCF `./.` padded)
   | _ => .ploidyError
 
 /-- A GT field: `none` when the whole field is missing (`.` or absent). -/
@@ -48,14 +49,27 @@ def isDigits (l : List Char) : Bool := !l.isEmpty && l.all Char.isDigit
 
 def digitsToNat (l : List Char) : Nat := l.foldl (fun acc c => 10 * acc + (c.toNat - '0'.toNat)) 0
 
-/-- One allele token: `.` is missing, digits an allele index, anything else invalid. -/
-def parseAllele (l : List Char) : Option (Option Nat) :=
-  if l = ['.'] then some none else if isDigits l then some (some (digitsToNat l)) else none
+/-- `usize::from_str` (64-bit): an optional `+`, then at least one ASCII digit; the value must be below 2^64. -/
+def parseAlleleIndex (l : List Char) : Option Nat :=
+  let d := match l with
+    | '+' :: r => r
+    | _ => l
+  if isDigits d ∧ digitsToNat d < 2 ^ 64 then some (digitsToNat d) else none
 
-/-- GT string → allele list (outer `none` = parse error, inner `none` = whole field `.`). -/
+/-- One allele token (noodles `parse_position`): `.` is missing, otherwise `usize::from_str`; anything else invalid. -/
+def parseAllele (l : List Char) : Option (Option Nat) :=
+  if l = ['.'] then some none else (parseAlleleIndex l).map some
+
+/-- A leading phasing separator in front of the first allele is allowed (VCF 4.4; noodles `parse_first_allele`). -/
+def stripLeadSep : List Char → List Char
+  | c :: r => if c = '/' ∨ c = '|' then r else c :: r
+  | [] => []
+
+/-- GT string → allele list (outer `none` = parse error, inner `none` = whole field `.`). The tokens are those of noodles'
+    `genotype::parser::parse`: an optional leading separator, then allele positions separated by single separators. -/
 def parseGT (s : List Char) : Option (Option (List (Option Nat))) :=
   if s = ['.'] then some none
-  else (splitGT s).mapM parseAllele |>.map some
+  else (splitGT (stripLeadSep s)).mapM parseAllele |>.map some
 
 /-! ## samples and populations -/
 
@@ -125,10 +139,18 @@ def splitAll (c : Char) : List Char → List (List Char)
 /-- `--samples a=X,b,c=Y`. -/
 def parseSamplesArg (s : List Char) : List (String × Pop) := (splitAll ',' s).map parseSampleArg
 
-/-- `--samples-file` content (`str::lines`: a trailing newline does not produce an empty last line). -/
+/-- `str::lines` ends a line at `\n` or `\r\n`: one carriage return in front of the line feed is dropped. -/
+def stripCr (l : List Char) : List Char := if l.getLast? = some '\r' then l.dropLast else l
+
+/-- `--samples-file` content (`str::lines`: a trailing newline does not produce an empty last line; a line that was ended by
+    `\r\n` loses the carriage return as well — a last line without line feed keeps a trailing `\r`). -/
 def parseSamplesFile (s : List Char) : List (String × Pop) :=
   let ls := splitAll '\n' s
-  let ls := if ls.getLast? = some [] then ls.dropLast else ls
+  let (ended, last) := (ls.dropLast, ls.getLast?)
+  let ls := ended.map stripCr ++ (match last with
+    | some [] => []
+    | some l => [l]
+    | none => [])
   ls.map parseSampleLine
 
 /-! ## site reader builder -/
